@@ -7,8 +7,14 @@ ROOT = os.path.dirname(os.path.dirname(os.path.abspath(__file__)))
 
 
 def main():
+    import sys
     sd = os.path.join(ROOT, "seeded")
-    res = json.load(open(os.path.join(sd, "RESULTS.json")))
+    rpath = os.path.join(sd, "RESULTS.json")
+    res = json.load(open(rpath)) if os.path.exists(rpath) else {}
+    for extra in sys.argv[1:]:          # results of runs on other snapshots: merged in (later files win)
+        res.update(json.load(open(extra)))
+    if sys.argv[1:]:
+        json.dump(res, open(rpath, "w"), indent=1)
     lines = ["# Seeded breaking changes and the checks that catch them", "",
              "Written by `python3 -m vh.seedtable` from `seeded/RESULTS.json` (one run of `python3 -m vh.seedrun "
              "<scratch copy of /repo>`: patch applied, every quick check run with VERIF_REPO pointing at the copy, "
